@@ -14,6 +14,7 @@ import (
 
 type TypeD struct {
 	K string   `json:"k"`
+	N string   `json:"n,omitempty"` // a struct type DECLARED under this name (several declared types may share a name)
 	P string   `json:"p"`
 	E *TypeD   `json:"e"`
 	F []FieldD `json:"f"`
@@ -58,6 +59,22 @@ type hiddenStructFieldSelf struct {
 
 func goType(t *TypeD) (reflect.Type, error) { return goTypeP(t, "F") }
 
+// two different struct types declared under the same name in different functions: reflect.Type.String() is "main.Item" for both
+func declaredItemA() reflect.Type {
+	type Item struct {
+		F1 string `xsel:"a"`
+		F2 string
+	}
+	return reflect.TypeOf(Item{})
+}
+func declaredItemB() reflect.Type {
+	type Item struct {
+		F1 string `xsel:"b"`
+		F2 string
+	}
+	return reflect.TypeOf(Item{})
+}
+
 // prefix: field names are <prefix><i>; the fields of an embedded member get another prefix than the struct around it, so that Go
 // promotes them (a promoted field is hidden by an outer field of the same name)
 func goTypeP(t *TypeD, prefix string) (reflect.Type, error) {
@@ -91,6 +108,18 @@ func goTypeP(t *TypeD, prefix string) (reflect.Type, error) {
 	case "func":
 		return reflect.TypeOf(func() {}), nil
 	case "struct":
+		if t.N != "" {
+			// declared types: only the two shapes above (field 1 tagged child::a or child::b, field 2 an untagged string)
+			if len(t.F) == 2 && t.F[0].Tag != nil && len(t.F[0].Tag.Steps) == 1 && t.F[0].T.K == "prim" && t.F[0].T.P == "string" {
+				switch str(t.F[0].Tag.Steps[0].Test.Lo) {
+				case "a":
+					return declaredItemA(), nil
+				case "b":
+					return declaredItemB(), nil
+				}
+			}
+			return nil, fmt.Errorf("no declared type for this shape")
+		}
 		for _, f := range t.F {
 			if !f.Exported {
 				if len(t.F) == 1 && f.T.K == "prim" && f.T.P == "string" {
@@ -393,6 +422,35 @@ func unmarshalCase(line string, rep *Report, fnd *Findings) {
 	}
 	holder := reflect.New(rt) // *T, non-nil
 	prefill(holder.Elem(), &gl.Type)
+	// a target that is itself a chain of pointers (**T): every other case hands the chain over fully allocated, with the caller's
+	// own struct at its end - Unmarshal allocates only the links that are nil, so untagged fields of that struct are kept
+	prealloc := false
+	if gl.Type.K == "ptr" && gl.Form == "ptr" && hash64([]byte(line))%2 == 1 {
+		v, t := holder.Elem(), &gl.Type
+		for t.K == "ptr" && v.Kind() == reflect.Pointer {
+			v.Set(reflect.New(v.Type().Elem()))
+			v, t = v.Elem(), t.E
+		}
+		if t.K == "struct" {
+			prefill(v, t)
+			prealloc = true
+		} else {
+			holder = reflect.New(rt)
+		}
+	}
+	projectTarget := func() GV {
+		if !prealloc {
+			return project(holder.Elem(), &gl.Type)
+		}
+		v, t := holder.Elem(), &gl.Type
+		for v.Kind() == reflect.Pointer && !v.IsNil() {
+			v = v.Elem()
+		}
+		for t.K == "ptr" {
+			t = t.E
+		}
+		return projectF(v, t, false)
+	}
 	var target any
 	switch gl.Form {
 	case "ptr":
@@ -434,7 +492,7 @@ func unmarshalCase(line string, rep *Report, fnd *Findings) {
 	case uerr != nil:
 		fail("unexpected-error", "Unmarshal failed: "+uerr.Error())
 	default:
-		got := project(holder.Elem(), &gl.Type)
+		got := projectTarget()
 		want := gl.Out.norm()
 		if !sameGV(want, got) {
 			fail("value", "expected "+short2(want)+" got "+short2(got))
@@ -466,6 +524,9 @@ func (t TypeD) MarshalJSON() ([]byte, error) {
 	case "ptr", "slice":
 		return json.Marshal(map[string]any{"k": t.K, "e": t.E})
 	case "struct":
+		if t.N != "" {
+			return json.Marshal(map[string]any{"k": t.K, "f": nn(t.F), "n": t.N})
+		}
 		return json.Marshal(map[string]any{"k": t.K, "f": nn(t.F)})
 	}
 	return json.Marshal(map[string]any{"k": t.K})
